@@ -236,38 +236,38 @@ def _case_arms(fn, sw):
 
 
 def json_escape_tables(prog):
+    """the writer's and the reader's escape tables, wherever in json.c the switches live: the writer's table is the
+    switch whose arms emit two-character strings that start with a backslash, the reader's the switch on an escape
+    letter whose arms yield a constant character (stored into the buffer or returned from a helper)"""
     from extract import AnalysisBroken
-    w = prog.func("json_write_string")
-    r = prog.func("json_read_string")
-    if w is None or r is None:
-        raise AnalysisBroken("anchor vanished: json_write_string / json_read_string")
+    funcs = [f for f in prog.all_funcs() if f.blocks and f.unit.name == "json.c"]
+    if not funcs:
+        raise AnalysisBroken("anchor vanished: lib/chibi/json.c")
     writer, reader = {}, {}
+    w = r = None
     wline = rline = None
-    for sw in [b for b in w.blocks.values() if b.term == "SwitchStmt"]:
-        cand = {}
-        for val, blocks in _case_arms(w, sw):
-            for bb in blocks:
-                for e in bb.elems:
-                    nd = w.nodes[e]
-                    if nd["k"] == "str" and len(nd.get("s", "")) == 2 and nd["s"][0] == "\\":
-                        cand[val & 0xFF] = nd["s"][1]
-        if len(cand) > len(writer):
-            writer, wline = cand, sw.line
-    for sw in [b for b in r.blocks.values() if b.term == "SwitchStmt"]:
-        cand = {}
-        for val, blocks in _case_arms(r, sw):
-            for bb in blocks:
-                for e in bb.elems:
-                    nd = r.nodes[e]
-                    # buf[i++] = '<c>'
-                    if nd["k"] == "bin" and nd["o"] == "=" and r.nodes[r.strip(nd["c"][0])]["k"] == "idx":
-                        v = r.const_val(nd["c"][1])
-                        if v is not None:
-                            cand[chr(val)] = v & 0xFF
-        if len(cand) > len(reader):
-            reader, rline = cand, sw.line
+    for fn in funcs:
+        for sw in [b for b in fn.blocks.values() if b.term == "SwitchStmt"]:
+            wc, rc = {}, {}
+            for val, blocks in _case_arms(fn, sw):
+                for bb in blocks:
+                    for e in bb.elems:
+                        nd = fn.nodes[e]
+                        if nd["k"] == "str" and len(nd.get("s", "")) == 2 and nd["s"][0] == "\\":
+                            wc[val & 0xFF] = nd["s"][1]
+                        v = None
+                        if nd["k"] == "bin" and nd["o"] == "=" and fn.nodes[fn.strip(nd["c"][0])]["k"] in ("idx", "ref"):
+                            v = fn.const_val(nd["c"][1])
+                        elif nd["k"] == "ret" and nd.get("c"):
+                            v = fn.const_val(nd["c"][0])
+                        if v is not None and 0 < val < 128 and chr(val).isalpha():
+                            rc[chr(val)] = v & 0xFF
+            if len(wc) > len(writer):
+                writer, w, wline = wc, fn, sw.line
+            if len(rc) > len(reader) and not wc:
+                reader, r, rline = rc, fn, sw.line
     if len(writer) < 3 or len(reader) < 2:
-        raise AnalysisBroken("anchor vanished: the escape switches of json_write_string / json_read_string")
+        raise AnalysisBroken("anchor vanished: the escape switches of the JSON string writer / reader")
     return writer, reader, w, r, wline, rline
 
 
